@@ -88,3 +88,95 @@ def report_image(verdict, o, tf, raw, run):
             f.write(json.dumps(rec) + "\n")
     verdict.report(sig, {"run": run, "recipe": rec, "variant": o.get("variant"), "what": what, "panic": o.get("panic"),
                          "files": d, "how": "jvh crash-run --trace files/trace.ndjson --raw files/writes.raw --recipes files/recipe.ndjson --profile <run.profile> --nkeys .. --nvals .."})
+
+
+# ------------------------------------------------------------------------------------------
+# header damage (C12)
+# ------------------------------------------------------------------------------------------
+
+def gen_damage_recipes(tf):
+    out = vlib._tlc("Gen_Damage", "Gen_Damage.cfg", 1, extra_env={"TRACE": tf}, dfs=True, xmx="6g", timeout=1800)
+    states, trans = tlc_stats(out)
+    if "Error:" in out or states == 0:
+        log(out[-3000:])
+        raise ToolError("Gen_Damage failed on %s" % tf)
+    rec = [r for r in parse_printed_json(out) if isinstance(r, dict) and "slot" in r]
+    rf = tf + ".dmg"
+    with open(rf, "w") as f:
+        for r in rec:
+            f.write(json.dumps(r) + "\n")
+    return rf, rec, states
+
+
+def run_damage(verdict, tf, raw, rf, run, jobs=8, extra=()):
+    build_harness()
+    tot = dict(images=0, recipes=0, bad=0, outcomes={})
+    nrec = len(read_lines(rf))
+    pending = [(j, j) for j in range(min(jobs, nrec))]
+    while pending:
+        procs = []
+        for j, skip in pending:
+            out = "%s.out.%d" % (rf, j)
+            cmd = [JVH, "damage-run", "--trace", tf, "--raw", raw, "--recipes", rf, "--profile", run["profile"],
+                   "--nkeys", str(run["nkeys"]), "--nvals", str(run["nvals"]), "--out", out,
+                   "--skip", str(skip), "--stride", str(jobs), "--seed", str(run["seed"])] + [str(x) for x in extra]
+            procs.append((subprocess.Popen(cmd, stdout=subprocess.DEVNULL, stderr=subprocess.PIPE, text=True), j, skip, out))
+        pending = []
+        for p, j, skip, out in procs:
+            _, err = p.communicate()
+            for ln in (read_lines(out) if os.path.exists(out) else []):
+                try:
+                    o = json.loads(ln)
+                except Exception:
+                    continue
+                if o.get("summary"):
+                    for k in ("images", "recipes", "bad"):
+                        tot[k] += o[k]
+                    for k, n in o["outcomes"].items():
+                        tot["outcomes"][k] = tot["outcomes"].get(k, 0) + n
+                    continue
+                report_damage(verdict, o, tf, raw, run)
+            if p.returncode != 0:
+                try:
+                    idx, pi = [int(x) for x in open(out + ".progress").read().split()]
+                except Exception:
+                    raise ToolError("damage-run died without progress: %s" % (err or "")[-400:])
+                rec = json.loads(read_lines(rf)[idx])
+                report_damage(verdict, {"line": idx, "recipe": rec, "pattern": "pattern #%d" % pi, "significant": True,
+                                        "what": "process %s while opening the damaged file" %
+                                                ("hung" if p.returncode == 86 else "aborted (rc %d): %s" % (p.returncode, (err or "").strip()[-200:]))},
+                              tf, raw, run)
+                if idx + jobs < nrec:
+                    pending.append((j, idx + jobs))
+            for x in (out, out + ".progress"):
+                if os.path.exists(x):
+                    os.remove(x)
+    return tot
+
+
+def damage_region(pattern):
+    if pattern.startswith("byte"):
+        off = int(pattern[4:].split("^")[0])
+        return ("page-type" if off == 8 else "page-header" if off < 32 else "record" if off < 96 else
+                "hash" if off < 104 else "tail")
+    return pattern.split("@")[0].rstrip("0123456789")
+
+
+def report_damage(verdict, o, tf, raw, run):
+    rec = o["recipe"]
+    what = o.get("what", "")
+    cls = ("open-failed" if what.startswith("open") else "wrong-commit" if what.startswith("recovered the state") else
+           "mixed-state" if what.startswith("recovered content") else "check-failed" if what.startswith("DB::check") else
+           "follow-up-failed" if "follow-up" in what else "died")
+    sig = {"kind": "damage", "class": cls, "region": damage_region(o.get("pattern", "")),
+           "newest_damaged": rec.get("slot") == rec.get("newest"), "profile": run.get("profile")}
+    h = hashlib.sha1(json.dumps(sig, sort_keys=True).encode()).hexdigest()[:10]
+    d = os.path.join(REPLAYS, "%s-%s.d" % (verdict.prop, h))
+    if not os.path.isdir(d):
+        os.makedirs(d, exist_ok=True)
+        shutil.copy(tf, os.path.join(d, "trace.ndjson"))
+        shutil.copy(raw, os.path.join(d, "writes.raw"))
+        with open(os.path.join(d, "recipe.ndjson"), "w") as f:
+            f.write(json.dumps(rec) + "\n")
+    verdict.report(sig, {"run": run, "recipe": rec, "pattern": o.get("pattern"), "what": what, "panic": o.get("panic"),
+                         "files": d, "how": "jvh damage-run --trace files/trace.ndjson --raw files/writes.raw --recipes files/recipe.ndjson ..."})
